@@ -9,8 +9,14 @@ var size atomic.Int64 // width<<32 | height
 
 func SetSize(w, h int) { size.Store(int64(w)<<32 | int64(uint32(h))) }
 
-func MakeRaw(fd int) (*State, error)      { return &State{}, nil }
-func Restore(fd int, s *State) error      { return nil }
+var raw atomic.Bool
+
+// Raw reports whether the terminal is in raw mode (between MakeRaw and Restore): only then is
+// what arrives on standard output a frame.
+func Raw() bool { return raw.Load() }
+
+func MakeRaw(fd int) (*State, error) { raw.Store(true); return &State{}, nil }
+func Restore(fd int, s *State) error { raw.Store(false); return nil }
 func IsTerminal(fd int) bool              { return true }
 func GetState(fd int) (*State, error)     { return &State{}, nil }
 func GetSize(fd int) (int, int, error) {
